@@ -1,20 +1,273 @@
 /-
   C20 — Stream filters keep streams well-formed and touch only what they
-  select.  Property theorems only; helper lemmas live in `Genshi/Lemmas/Tf*.lean`.
+  select.  Property theorems only; the models are `Genshi/Model/Tf.lean`
+  (transformer) and `Genshi/Model/TfFill.lean` (form filler); helper lemmas
+  live in `Genshi/Lemmas/Tf*.lean`.
+
+  Vocabulary.  A marked stream is `List (Option Mark × MEv)`.  `Good s`
+  (`marking_wf`) says that the selections of `s` are whole balanced pieces:
+  unmarked events, blocks of one mark that are balanced, and ENTER … EXIT
+  brackets around a balanced interior.  `SegsOk segs` is the same thing cut
+  into explicit segments, used to state what an operation does to a selection
+  and that it does nothing else.  `selOk` says that the recorded results of
+  `Path.test()` are results that function can return (checked by the driver on
+  every run); the XPath semantics itself is C05/C17.
 
   OBLIGATIONS (checked by the harness):
-    select_only_id
+    select_only_id select_marks_wf select_segments
+    remove_exact remove_attr_exact remove_wellnested
+    copy_id_and_buffer
+    run_ops_change_only_selected unwrap_changes_only_selected empty_changes_only_selected
+    prepend_changes_only_selected append_changes_only_selected rename_changes_only_selected
+    attr_changes_only_selected
+    wrap_preserves_wellnested replace_preserves_wellnested before_preserves_wellnested
+    after_preserves_wellnested unwrap_preserves_wellnested empty_preserves_wellnested
+    prepend_preserves_wellnested append_preserves_wellnested rename_preserves_wellnested
+    attr_preserves_wellnested cut_preserves_wellnested map_preserves_wellnested
+    chain_wellnested_partial invert_wrap_breaks_nesting attr_wrap_emits_empty_wrapper
 -/
-import Genshi.Lemmas.Tf
+import Genshi.Lemmas.TfSegs
 namespace Genshi.Props.C20
 open Genshi Genshi.Tf
 
+/-! ## selection -/
+
 /-- A transformer that only selects is the identity: whatever `Path.test()` answers
     (no match, match, attribute list, the event itself), selecting and unmarking
-    gives back the events of the input. -/
+    gives back exactly the events of the input. -/
 theorem select_only_id (rs : List Res) (h : ∀ r ∈ rs, r.plain = true) (s : Stream) :
     unmark (selectGo 0 rs (markAll s)) = s := by
-  have := Genshi.Tf.unmark_selectGo 0 rs (markAll s) h
-  rw [this, unmark_markAll]
+  rw [unmark_selectGo 0 rs (markAll s) h, unmark_markAll]
+
+example : unmark (selectGo 0 [.none, .hit, .none]
+    (markAll [.start ⟨[], ['r']⟩ [], .start ⟨[], ['a']⟩ [], .text ['t'] false, .end_ ⟨[], ['a']⟩,
+      .end_ ⟨[], ['r']⟩])) =
+    [.start ⟨[], ['r']⟩ [], .start ⟨[], ['a']⟩ [], .text ['t'] false, .end_ ⟨[], ['a']⟩,
+      .end_ ⟨[], ['r']⟩] := by decide
+
+/-- `select_marks_wf`: on a well-nested stream, for *any* admissible per-event match
+    results, the marking a select produces is `Good` (ENTER/INSIDE/EXIT bracket whole
+    subtrees, OUTSIDE/ATTR marks sit on events that do not open or close elements) and the
+    generator never runs off the end of the stream (no `StopIteration`). -/
+theorem select_marks_wf (rs : List Res) (s : MStream) (hwn : WellNested (unmark s))
+    (hok : selOk 0 rs s = true) :
+    Good (selectGo 0 rs s) ∧ select rs s = some (selectGo 0 rs s) := by
+  obtain ⟨g, f⟩ := select_good rs s hwn hok
+  exact ⟨g, by simp [select, f]⟩
+
+/-- … and it is a list of maximal contiguous selections, to which the per-operation
+    theorems below apply. -/
+theorem select_segments (rs : List Res) (s : MStream) (hwn : WellNested (unmark s))
+    (hok : selOk 0 rs s = true) : ∃ segs, SegsOk segs ∧ selectGo 0 rs s = flatSegs segs :=
+  select_segs rs s hwn hok
+
+/-! ## removal -/
+
+/-- Removal deletes exactly the selected events (no attribute selection in the stream):
+    the output is the input with every marked item dropped, in order. -/
+theorem remove_exact (s : MStream) (h : ∀ p ∈ s, p.1 ≠ some .attr) :
+    remove s = s.filter (fun p => p.1.isNone) := remove_filter s h
+
+/-- Removal of an attribute selection: the ATTR pseudo-event disappears and the selected
+    attributes are taken off the START event that follows (repaired defect C20-remove-attr). -/
+theorem remove_attr_exact (tag t : QName) (a at_ : AttrList) (ha : a ≠ []) (s : MStream) :
+    remove ((some .attr, .attr tag a) :: (none, .ev (.start t at_)) :: s) =
+      (none, .ev (.start t (attrsSub at_ (a.map (·.1))))) :: remove s :=
+  remove_attr_sel tag t a at_ ha s
+
+/-- What remains after removal is well nested. -/
+theorem remove_wellnested {s : MStream} (hg : Good s) (hwn : WellNested (unmark s)) :
+    WellNested (unmark (remove s)) := by
+  unfold WellNested remove; rw [remove_balance hg]; exact hwn
+
+example : remove [(none, .ev (.start ⟨[], ['r']⟩ [])), (some .enter, .ev (.start ⟨[], ['a']⟩ [])),
+      (some .exit, .ev (.end_ ⟨[], ['a']⟩)), (none, .ev (.end_ ⟨[], ['r']⟩))] =
+    [(none, .ev (.start ⟨[], ['r']⟩ [])), (none, .ev (.end_ ⟨[], ['r']⟩))] := by decide
+
+/-! ## copy -/
+
+/-- Copy leaves the stream unchanged (for every marked stream), and with `accumulate`
+    its buffer receives exactly the marked events, in order — what selection returns —
+    whenever no unmarked event sits inside an ENTER … EXIT bracket, which holds for the
+    output of every select. -/
+theorem copy_id_and_buffer (s : MStream) :
+    copy s = s ∧
+    (tight false s = true → ∀ buf, copyBuf true .idle buf s = buf ++ marked s) ∧
+    (∀ rs t, tight false (selectGo 0 rs t) = true) :=
+  ⟨copy_id s, fun h buf => (copyBuf_spec s).1 buf h, fun rs t => by simpa using selectGo_tight rs t 0⟩
+
+/-! ## the documented effect of each operation, and nothing else -/
+
+/-- replace / before / after / wrap (one loop shape, `runGo pre post keep`): every contiguous
+    selection `seg` becomes `pre ++ seg ++ post` (`seg` dropped for replace); unselected
+    events are unchanged and stay where they are.
+    replace c = `runGo (inj c) [] false`, before c = `runGo (inj c) [] true`,
+    after c = `runGo [] (inj c) true`, wrap = `runGo [START w] [END w] true`. -/
+theorem run_ops_change_only_selected (pre post : MStream) (keep : Bool) (segs : List Seg)
+    (h : SegsOk segs) :
+    runGo pre post keep .idle (flatSegs segs) = segs.flatMap (runSpec pre post keep) :=
+  runGo_segs pre post keep segs h
+
+example : wrap [.start ⟨[], ['w']⟩ []] (.end_ ⟨[], ['w']⟩)
+    [(none, .ev (.start ⟨[], ['r']⟩ [])), (some .outside, .ev (.text ['t'] false)),
+      (none, .ev (.end_ ⟨[], ['r']⟩))] =
+    [(none, .ev (.start ⟨[], ['r']⟩ [])), (none, .ev (.start ⟨[], ['w']⟩ [])),
+      (some .outside, .ev (.text ['t'] false)), (none, .ev (.end_ ⟨[], ['w']⟩)),
+      (none, .ev (.end_ ⟨[], ['r']⟩))] := by decide
+
+/-- unwrap removes exactly the ENTER and EXIT events of each selected element. -/
+theorem unwrap_changes_only_selected (segs : List Seg) (h : SegsOk segs) :
+    unwrap (flatSegs segs) = segs.flatMap (elemSpec fun _ mid _ => mid) := unwrap_segs segs h
+
+/-- empty removes exactly the interior of each selected element. -/
+theorem empty_changes_only_selected (segs : List Seg) (h : SegsOk segs) :
+    empty (flatSegs segs) = segs.flatMap (elemSpec fun e _ x => [(some .enter, e), (some .exit, x)]) :=
+  empty_segs segs h
+
+/-- prepend inserts the content right after the ENTER event of each selected element. -/
+theorem prepend_changes_only_selected (c : List MEv) (segs : List Seg) (h : SegsOk segs) :
+    prepend c (flatSegs segs) =
+      segs.flatMap (elemSpec fun e mid x => (some .enter, e) :: ((inj c ++ mid) ++ [(some .exit, x)])) :=
+  prepend_segs c segs h
+
+/-- append inserts the content right before the EXIT event of each selected element. -/
+theorem append_changes_only_selected (c : List MEv) (segs : List Seg) (h : SegsOk segs) :
+    append c (flatSegs segs) =
+      segs.flatMap (elemSpec fun e mid x => (some .enter, e) :: ((mid ++ inj c) ++ [(some .exit, x)])) :=
+  append_segs c segs h
+
+/-- rename changes exactly the tag of the ENTER and EXIT events of each selected element. -/
+theorem rename_changes_only_selected (n : QName) (segs : List Seg) (h : SegsOk segs) :
+    rename n (flatSegs segs) =
+      segs.flatMap (elemSpec fun e mid x => renameEv n (some .enter, e) :: (mid ++ [renameEv n (some .exit, x)])) :=
+  rename_segs n segs h
+
+/-- attr changes exactly the attribute list of the ENTER event of each selected element
+    (`attrsSet`: replace in place or append; `attrsSub`: delete). -/
+theorem attr_changes_only_selected (n : QName) (v : Option Str) (segs : List Seg) (h : SegsOk segs) :
+    setAttr n v (flatSegs segs) =
+      segs.flatMap (elemSpec fun e mid x => attrEv n v (some .enter, e) :: (mid ++ [(some .exit, x)])) :=
+  setAttr_segs n v segs h
+
+/-! ## every operation keeps a `Good`, well-nested stream well nested (and `Good`) -/
+
+theorem wrap_preserves_wellnested (t : QName) (a : AttrList) {s : MStream} (hg : Good s)
+    (hwn : WellNested (unmark s)) :
+    WellNested (unmark (wrap [.start t a] (.end_ t) s)) ∧ Good (wrap [.start t a] (.end_ t) s) := by
+  have hw : Wrapper (unmark (inj ([Event.start t a].map MEv.ev))) (unmark [(none, MEv.ev (.end_ t))]) := by
+    simpa [inj, unmark] using wrapper_elem t a
+  exact ⟨runGo_wn true hw hg hwn,
+    (runGo_good true (inj_noneMarked _) (by intro p hp; simp at hp; simp [hp]) hg).1⟩
+
+theorem replace_preserves_wellnested (c : List MEv) (hc : Bal (evsOf c)) {s : MStream} (hg : Good s)
+    (hwn : WellNested (unmark s)) : WellNested (unmark (replace c s)) ∧ Good (replace c s) := by
+  have hw : Wrapper (unmark (inj c)) (unmark []) := by rw [unmark_inj]; exact wrapper_inject hc
+  exact ⟨runGo_wn false hw hg hwn, (runGo_good false (inj_noneMarked _) (by intro p hp; simp at hp) hg).1⟩
+
+theorem before_preserves_wellnested (c : List MEv) (hc : Bal (evsOf c)) {s : MStream} (hg : Good s)
+    (hwn : WellNested (unmark s)) : WellNested (unmark (before c s)) ∧ Good (before c s) := by
+  have hw : Wrapper (unmark (inj c)) (unmark []) := by rw [unmark_inj]; exact wrapper_inject hc
+  exact ⟨runGo_wn true hw hg hwn, (runGo_good true (inj_noneMarked _) (by intro p hp; simp at hp) hg).1⟩
+
+theorem after_preserves_wellnested (c : List MEv) (hc : Bal (evsOf c)) {s : MStream} (hg : Good s)
+    (hwn : WellNested (unmark s)) : WellNested (unmark (after c s)) ∧ Good (after c s) := by
+  have hw : Wrapper (unmark []) (unmark (inj c)) := by rw [unmark_inj]; exact wrapper_after hc
+  exact ⟨runGo_wn true hw hg hwn, (runGo_good true (by intro p hp; simp at hp) (inj_noneMarked _) hg).1⟩
+
+theorem unwrap_preserves_wellnested {s : MStream} (hg : Good s) (hwn : WellNested (unmark s)) :
+    WellNested (unmark (unwrap s)) ∧ Good (unwrap s) :=
+  ⟨by unfold WellNested; rw [unwrap_balance hg]; exact hwn, unwrap_good hg⟩
+
+theorem empty_preserves_wellnested {s : MStream} (hg : Good s) (hwn : WellNested (unmark s)) :
+    WellNested (unmark (empty s)) ∧ Good (empty s) :=
+  ⟨by unfold WellNested; rw [empty_balance hg]; exact hwn, empty_good hg⟩
+
+theorem prepend_preserves_wellnested (c : List MEv) (hc : Bal (evsOf c)) {s : MStream} (hg : Good s)
+    (hwn : WellNested (unmark s)) : WellNested (unmark (prepend c s)) ∧ Good (prepend c s) :=
+  ⟨by unfold WellNested; rw [prepend_balance c hc hg]; exact hwn, prepend_good c hc hg⟩
+
+theorem append_preserves_wellnested (c : List MEv) (hc : Bal (evsOf c)) {s : MStream} (hg : Good s)
+    (hwn : WellNested (unmark s)) : WellNested (unmark (append c s)) ∧ Good (append c s) :=
+  ⟨by unfold WellNested; rw [append_balance c hc hg]; exact hwn, append_good c hc hg⟩
+
+theorem rename_preserves_wellnested (n : QName) {s : MStream} (hg : Good s)
+    (hwn : WellNested (unmark s)) : WellNested (unmark (rename n s)) ∧ Good (rename n s) :=
+  ⟨by unfold WellNested; rw [rename_balance n hg]; exact hwn, rename_good n hg⟩
+
+theorem attr_preserves_wellnested (n : QName) (v : Option Str) {s : MStream} (hg : Good s)
+    (hwn : WellNested (unmark s)) : WellNested (unmark (setAttr n v s)) ∧ Good (setAttr n v s) :=
+  ⟨by unfold WellNested setAttr; rw [map_balance (attrEv_effPres n v)]; exact hwn,
+   map_good (attrEv_effPres n v) hg⟩
+
+/-- cut (when its `assert kind is START` holds) drops whole selections, inserts BREAK
+    pseudo-events and strips selected attributes: well nested and `Good` again. -/
+theorem cut_preserves_wellnested (acc : Bool) {s out : MStream} (hg : Good s)
+    (hwn : WellNested (unmark s)) (h : cut acc s = some out) : WellNested (unmark out) ∧ Good out := by
+  obtain ⟨g, bal⟩ := cut_good hg h
+  exact ⟨by unfold WellNested; rw [bal]; exact hwn, g⟩
+
+/-- map / substitute change text only. -/
+theorem map_preserves_wellnested (all : Bool) (p r : Str) (n : Nat) (s : MStream)
+    (hwn : WellNested (unmark s)) :
+    WellNested (unmark (mapBang all s)) ∧ WellNested (unmark (substitute p r n s)) :=
+  ⟨by unfold WellNested mapBang; rw [map_balance (mapBangEv_effPres all)]; exact hwn,
+   by unfold WellNested substitute; rw [map_balance (substEv_effPres p r n)]; exact hwn⟩
+
+/-! ## chains -/
+
+/-
+  Full statement (kept visible): for every well-nested stream `s` and every chain `ops` of
+  Transformer operations in which, after an `invert()`, a `select()`/`end()` comes before any
+  operation that acts on contiguous selections, `transform ops s = some out → WellNested out`.
+
+  Proved part (`_partial`): the same for chains that
+    * do not use `filter(f)` (an arbitrary user filter; the model drives two instances),
+    * inject literal content only (strings, event streams that are balanced) — content taken
+      from a `StreamBuffer` filled earlier in the same chain is not covered,
+    * after `invert()` use only select / end / invert / buffer / attr / map / substitute until
+      the next select or end (before/after/prepend/append/rename/copy/unwrap/empty are also
+      harmless there but are not in the proved class).
+  The chain may contain any number of selects, `end()`, `buffer()`, `copy`, `cut`, wrap,
+  replace, before, after, prepend, append, rename, attr, empty, unwrap, remove, map,
+  substitute in any order.
+-/
+theorem chain_wellnested_partial (ops : List Op) (s : Stream) (hs : WellNested s)
+    (hadm : Admissible true ops) (hsel : chainSelOk ops [] (markAll s) = true)
+    (out : Stream) (h : transform ops s = some out) : WellNested out := by
+  simp only [transform, transformMarked, Option.map_eq_some_iff] at h
+  obtain ⟨⟨o, b⟩, hr, rfl⟩ := h
+  exact runChain_wellnested ops true [] (markAll s) hadm (by rw [unmark_markAll]; exact hs)
+    (fun _ => markAll_good hs) hsel o b hr
+
+def qn (c : Char) : QName := ⟨[], [c]⟩
+
+/-- non-vacuity: an admissible chain of four operations on a concrete document -/
+example : Admissible true [.select [.none, .hit, .none], .prepend (.str ['Z']), .wrap (qn 'w') [], .rename (qn 'n')] ∧
+    chainSelOk [.select [.none, .hit, .none], .prepend (.str ['Z']), .wrap (qn 'w') [], .rename (qn 'n')] []
+      (markAll [.start (qn 'r') [], .start (qn 'a') [], .text ['t'] false, .end_ (qn 'a'), .end_ (qn 'r')]) = true ∧
+    transform [.select [.none, .hit, .none], .prepend (.str ['Z']), .wrap (qn 'w') [], .rename (qn 'n')]
+      [.start (qn 'r') [], .start (qn 'a') [], .text ['t'] false, .end_ (qn 'a'), .end_ (qn 'r')] =
+    some [.start (qn 'r') [], .start (qn 'w') [], .start (qn 'n') [], .text ['Z'] false, .text ['t'] false,
+      .end_ (qn 'n'), .end_ (qn 'w'), .end_ (qn 'r')] := by
+  refine ⟨by simp [Admissible, Op.OkGood, Op.next, Content.Ok], by decide, by decide⟩
+
+/-- The documented precondition is needed: inverting a selection marks the gaps between
+    selected elements, which cut through elements; wrapping them is ill nested.
+    `<r><a/></r>` | Transformer('a').invert().wrap('w')  =  `<w><r></w><a/><w></r></w>`. -/
+theorem invert_wrap_breaks_nesting :
+    ∃ out, transform [.select [.none, .hit, .none], .invert, .wrap (qn 'w') []]
+      [.start (qn 'r') [], .start (qn 'a') [], .end_ (qn 'a'), .end_ (qn 'r')] = some out ∧
+      ¬ WellNested out :=
+  ⟨[.start (qn 'w') [], .start (qn 'r') [], .end_ (qn 'w'), .start (qn 'a') [], .end_ (qn 'a'),
+    .start (qn 'w') [], .end_ (qn 'r'), .end_ (qn 'w')], by decide, by decide⟩
+
+/-- Known finding C20-attr-structural: an attribute selection is a zero-width pseudo-event in
+    front of its element, so wrap() on it emits an empty wrapper element.
+    `<r><a x="1"/></r>` | Transformer('a/@x').wrap('w')  =  `<r><w/><a x="1"/></r>`. -/
+theorem attr_wrap_emits_empty_wrapper :
+    transform [.select [.none, .attrs [(qn 'x', ['1'])], .none, .none], .wrap (qn 'w') []]
+      [.start (qn 'r') [], .start (qn 'a') [(qn 'x', ['1'])], .end_ (qn 'a'), .end_ (qn 'r')] =
+    some [.start (qn 'r') [], .start (qn 'w') [], .end_ (qn 'w'), .start (qn 'a') [(qn 'x', ['1'])],
+      .end_ (qn 'a'), .end_ (qn 'r')] := by decide
 
 end Genshi.Props.C20
